@@ -135,8 +135,9 @@ def partial_transpose(
     if isinstance(dim, list):
         dim = np.array(dim)
     if isinstance(sys, list):
-        sys = np.array(sys)
-    if isinstance(sys, int):
+        # (An empty list would otherwise become a float array, which cannot be used as an index.)
+        sys = np.array(sys, dtype=int)
+    if isinstance(sys, (int, np.integer)):
         sys = np.array([sys])
 
     # Allow the user to enter a single number for dim.
